@@ -23,6 +23,13 @@ structure Cheat where
   predIndex : Nat
   value : Int
   mTilde : Int
+  /-- prove only the FIRST requested predicate and send its proof once per requested predicate
+      (a repeated predicate proof standing in for the missing ones) -/
+  dupFirst : Bool := false
+  /-- split a hidden value: the equality proof is run on `value − d` for this attribute and an
+      unrequested entry `(attr, d)` is added to `revealed_attrs` (the two parts recombine in the
+      verification equation unless the revealed set is compared with the request) -/
+  splitAttr : Option (String × Int) := none
 
 def forgeCore (inp : Json) (sigOf : Int → PubKey Int → Values → Except String (Signature Int))
     (cheat : Option Cheat) : Except String Json := do
@@ -53,9 +60,11 @@ def forgeCore (inp : Json) (sigOf : Int → PubKey Int → Values → Except Str
   | .ok eqInit =>
     let mut neInits : List (NeInit Int) := []
     let mut j := 0
-    for (p, t) in preds.zip ptapes do
+    let dup := match cheat with | some ch => ch.dupFirst | none => false
+    let work := if dup then (preds.zip ptapes).take 1 else preds.zip ptapes
+    for (p, t) in work do
       let (mt, vs) : List (String × Int) × Values := match cheat with
-        | some ch => if ch.predIndex == j then ((p.attr, ch.mTilde) :: eqInit.mTilde, (p.attr, ch.value) :: vals)
+        | some ch => if !ch.dupFirst && ch.predIndex == j then ((p.attr, ch.mTilde) :: eqInit.mTilde, (p.attr, ch.value) :: vals)
                      else (eqInit.mTilde, vals)
         | none => (eqInit.mTilde, vals)
       match initNeProof o m fourSq pk mt vs p t with
@@ -63,19 +72,30 @@ def forgeCore (inp : Json) (sigOf : Int → PubKey Int → Values → Except Str
       | .err => return Json.mkObj [("status", "err"), ("why", "predicate refused")]
       | .panic => return Json.mkObj [("status", "panic")]
       j := j + 1
+    if dup then neInits := (List.replicate preds.length neInits).flatten
     let tauList : List Int := eqInit.t :: neInits.flatMap (·.tauList)
     let cList : List Int := eqInit.aPrime :: neInits.flatMap (·.cList)
     let enc := encInt rustBackend
     let c := hashList (tauList.map enc ++ cList.map enc ++ [enc nonce])
-    match finalizeEqProof eqInit c unrevealed revealed vals with
-    | .ok eq =>
+    let valsEq : Values := match cheat with
+      | some ch => match ch.splitAttr with
+        | some (a, d) => (a, ((lookup a vals).getD 0) - d) :: vals
+        | none => vals
+      | none => vals
+    match finalizeEqProof eqInit c unrevealed revealed valsEq with
+    | .ok eq0 =>
+      let eq : EqProof Int := match cheat with
+        | some ch => match ch.splitAttr with
+          | some (a, d) => { eq0 with revealed := eq0.revealed ++ [(a, d)] }
+          | none => eq0
+        | none => eq0
       let mut nes : List Json := []
       let mut k := 0
       for ni in neInits do
         match finalizeNeProof c ni eq with
         | .ok ne =>
           let mj : Int := match cheat with
-            | some ch => if ch.predIndex == k then c * ch.value + ch.mTilde else ne.mj
+            | some ch => if !ch.dupFirst && ch.predIndex == k then c * ch.value + ch.mTilde else ne.mj
             | none => ne.mj
           nes := nes ++ [Json.mkObj [("u", decMapJson ne.u), ("r", decMapJson ne.r), ("mj", Json.str (toString mj)),
             ("alpha", Json.str (toString ne.alpha)), ("t", decMapJson ne.t), ("predicate", predJson ne.pred)]]
@@ -106,6 +126,38 @@ def unitSignature (rustBackend : Bool) (m2 : Int) (n : Int) (pk : PubKey Int) (v
   | .ok rxi => .ok { m2 := m2, a := o.mul pk.z rxi, e := 1, v := 0 }
   | _ => .error "unit signature: group operation failed"
 
+/-- no credential, `A' = 0` (or `n`): every factor of `T̂` that contains `A'` collapses; if the
+    verifier does not insist on inverting `Z / (A'^{2^596} · Π R^m)` the recomputed `T̂` is 0, hashed as
+    the empty string, and the challenge is computable from public data -/
+def forgeZeroAPrime (inp : Json) (aPrime : Int) : Except String Json := do
+  let rustBackend := (← getStr inp "backend") == "rust"
+  let pkJ ← inp.getObjVal? "pk"
+  let vals ← decMap (← inp.getObjVal? "values")
+  let schema ← strList inp "schema"
+  let nonSchema ← strList inp "non_schema"
+  let reqJ ← inp.getObjVal? "req"
+  let revealed := sortStrings (← strList reqJ "revealed")
+  let tj ← inp.getObjVal? "tape"
+  let mtFresh ← decMap (← tj.getObjVal? "m_tilde")
+  let nonce ← getDec inp "nonce"
+  let enc := encInt rustBackend
+  let unrevealed := unrevealedOf schema nonSchema revealed
+  let c := hashList ([enc 0] ++ [enc aPrime] ++ [enc nonce])
+  let eqJ := Json.mkObj [("revealed_attrs", decMapJson (revealed.map fun k => (k, (lookup k vals).getD 0))),
+    ("a_prime", Json.str (toString aPrime)), ("e", Json.str (toString (← getDec tj "e_tilde"))),
+    ("v", Json.str (toString (← getDec tj "v_tilde"))),
+    ("m", decMapJson (unrevealed.map fun k => (k, (lookup k mtFresh).getD 7))), ("m2", Json.str (toString (← getDec tj "m2_tilde")))]
+  let proof := Json.mkObj [
+    ("proofs", Json.arr #[Json.mkObj [("primary_proof", Json.mkObj [("eq_proof", eqJ), ("ge_proofs", Json.arr #[])]),
+                                      ("non_revoc_proof", Json.null)]]),
+    ("aggregated_proof", Json.mkObj [("c_hash", Json.str (toString c)), ("c_list", Json.arr #[bytesJson (enc aPrime)])])]
+  let vin := Json.mkObj [("mode", ← inp.getObjVal? "mode"), ("backend", ← inp.getObjVal? "backend"),
+    ("common", toJson ([] : List String)), ("proof", proof), ("nonce", Json.str (toString nonce)),
+    ("creds", Json.arr #[Json.mkObj [("pk", pkJ), ("req", reqJ), ("schema", toJson schema), ("non_schema", toJson nonSchema),
+                                     ("has_rkey", false), ("has_registry", false), ("has_regkey", false)]])]
+  let mv ← verifyOp noNrHook vin
+  return Json.mkObj [("status", "ok"), ("proof", proof), ("model_verdict", mv), ("e_bits", toJson (0 : Nat))]
+
 def forgeOp (inp : Json) : Except String Json := do
   let rustBackend := (← getStr inp "backend") == "rust"
   let cj ← inp.getObjVal? "cheat"
@@ -118,6 +170,18 @@ def forgeOp (inp : Json) : Except String Json := do
     let sig : Signature Int := { m2 := ← getDec sj "m_2", a := ← getDec sj "a", e := ← getDec sj "e", v := ← getDec sj "v" }
     let ch : Cheat := { predIndex := (← getInt cj "pred_index").toNat, value := ← getInt cj "value", mTilde := ← getDec cj "m_tilde" }
     forgeCore inp (fun _ _ _ => .ok sig) (some ch)
+  | "zero_a_prime" =>
+    let (n, _) ← parsePubKey (← inp.getObjVal? "pk")
+    forgeZeroAPrime inp (if (← getStr cj "which") == "n" then n else 0)
+  | "duplicate_predicate" =>
+    let sj ← inp.getObjVal? "sig"
+    let sig : Signature Int := { m2 := ← getDec sj "m_2", a := ← getDec sj "a", e := ← getDec sj "e", v := ← getDec sj "v" }
+    forgeCore inp (fun _ _ _ => .ok sig) (some { predIndex := 0, value := 0, mTilde := 0, dupFirst := true })
+  | "split_hidden" =>
+    let sj ← inp.getObjVal? "sig"
+    let sig : Signature Int := { m2 := ← getDec sj "m_2", a := ← getDec sj "a", e := ← getDec sj "e", v := ← getDec sj "v" }
+    forgeCore inp (fun _ _ _ => .ok sig)
+      (some { predIndex := 1000000, value := 0, mTilde := 0, splitAttr := some (← getStr cj "attr", ← getDec cj "d") })
   | "honest" =>
     let sj ← inp.getObjVal? "sig"
     let sig : Signature Int := { m2 := ← getDec sj "m_2", a := ← getDec sj "a", e := ← getDec sj "e", v := ← getDec sj "v" }
